@@ -5,16 +5,28 @@ import string
 RULE = ("documents of 0..200 entries (1..3 accessions, 0..2 names, sequence text of 0..2000 letters; with or without the "
         "schema's attributes, protein/organism children whose own <name> elements must not leak into the entry's names, "
         "copyright element / comment / nothing between entries; with or without XML declaration and trailing newline), "
-        "rendered by Lean's renderDoc; uniprot.Parse on the plain text and through gzip, uniprot.Read on a gzip temp file; "
+        "rendered by Lean's renderDoc; uniprot.Parse on the plain text and through gzip, uniprot.Read on a gzip temp file, "
+        "also two dumps of > 100 entries opened before either is consumed; "
         "consumers: sequential (entries, then errors) and concurrent, seeded random stalls, entry/error capacities 0..100; "
-        "damage: truncation at EVERY byte offset of small documents, random truncation of larger ones, overwriting one byte "
-        "with 0x01 / '<' in leaf text / a letter of an end-tag name, gzip stream truncated or one byte flipped. "
+        "damage: truncation at EVERY byte offset of the plain text of small documents (quick: 2 documents, one consumer/"
+        "capacity/source setting per offset in rotation; thorough: 4 documents x 5 settings), truncation at EVERY byte "
+        "offset of the GZIP stream of a small document for Parse-on-gzip and uniprot.Read (quick: the empty-root document; "
+        "thorough: also the two-entry document), random truncation of larger ones, overwriting one byte with 0x01 / a "
+        "lone byte >= 0x80 (invalid UTF-8, applied by the harness) / '<' in leaf text / a letter of an end-tag name, a "
+        "schema-invalid attribute value, gzip stream truncated or one byte flipped at random. "
         "non-trivial = at least one entry; distinct by case text")
 EXHAUSTIVE = {"quick": True, "thorough": True}
 TRUSTED_BASE = ["encoding/xml (abstract decoder of the model; its token trace is observed by the harness on every case)",
                 "compress/gzip", "the Go scheduler and memory model (-race runs look for data races)",
                 "Entry/SequenceType unmarshalling is exercised through the judge (delivered accessions, names, sequence) only"]
-ASSUMPTIONS = ["'damaged' at the level of the model = the decoder reports an error, or the stream ends before any element; that "
+ASSUMPTIONS = ["RULING (gzip header unreadable): uniprot.Read returns its error synchronously and that error is the report; the "
+               "channels it returns alongside are not to be consumed and stay open; judged: the file is indeed damaged, no "
+               "goroutine was started and nothing arrives on the channels. For Parse on a gzip reader that cannot be built "
+               "nothing runs and nothing is judged.",
+               "pinned beyond the property (a change there is a correspondence alarm, not a property failure): a partly "
+               "decoded entry is still delivered after its error; a failure inside an entry is reported twice; errors arrive "
+               "only after the entries channel is closed; Name.Local == \"entry\" in any namespace / at any depth",
+               "'damaged' at the level of the model = the decoder reports an error, or the stream ends before any element; that "
                "encoding/xml reports every cut or corruption after the first element has begun is observed (judge on constructed damage), not proved",
                "on a finite input the decoder reaches EOF or an error after finitely many Token calls",
                "encoding/xml syntax and reader errors are sticky (checked on every case, reported as class tag /nonsticky otherwise)",
@@ -24,14 +36,20 @@ PARTIAL = []
 TECHNIQUE = ("Lean 4 proof over the token loop of uniprot.Parse on an abstract decoder, as a producer on two channels of a "
              "small-step channel semantics; all schedules, all capacities; independent document writer; differential "
              "correspondence on channel traces using the real decoder's token trace")
-LEVEL_TEXT = ("Kernel-checked for every trace, capacity pair and schedule: terminates, delivers_prefix, wellformed_delivers, "
-              "damaged_terminates (+ sticky corollary: two error slots suffice), any_parser_blocks / errcap_too_small_blocks "
-              "(the corner excluded from the judge), run_is_maximal. Tied to the code by correspondence of (closed, #errors, "
-              "delivered entries) against the model run on the token trace obtained from encoding/xml for the same bytes.")
+LEVEL_TEXT = ("Kernel-checked for every trace, EVERY capacity pair (0 included), both consumers and every schedule: terminates, "
+              "delivers_prefix, wellformed_delivers, damaged_terminates (no capacity hypothesis since 1559ed9), "
+              "sticky_errors_le_two, document_delivers (clause 1 on the documents of Spec/UniprotDoc: exactly the k entries "
+              "with their accessions, names and sequence text), run_is_maximal; report_before_close_blocks records why the "
+              "old send order was a defect. Termination of the DECODER is an assumption built into the model's finite traces: "
+              "the original defect (endless re-sending of a sticky error) is visible to the correspondence only. Tied to the "
+              "code by correspondence of (closed, #errors, delivered entries) against the model run on the token trace "
+              "obtained from encoding/xml for the same bytes, and of that trace against docTrace for undamaged documents; the "
+              "judge compares delivered entry contents with the document spec, never with the harness's own decoding.")
 LEVEL_NOTE = "Trusted: Lean kernel; harness; encoding/xml; gzip; scheduler."
 HARNESS_BIN = "run-io"
 EXTRACT_BINS = []
 NEEDS_RACE = True
+NEEDS_RACE_QUICK = True
 TIMEOUT_MS = 60000
 
 WORD = string.ascii_letters + string.digits + "_"
@@ -99,9 +117,8 @@ def entry(r, big=False, valid=True):
 
 def case(r, cons, ent_cap, err_cap, src, damage, prolog, tnl, entries, pylen=True, deadline=None, stall=None):
     text, _, _, _ = render(prolog, entries, tnl)
-    corner = cons == "seq" and (err_cap < 2 and src != "read") and damage != "none"
     if deadline is None:
-        deadline = 250 if corner else 15000
+        deadline = 15000
     f = ["doc", cons, str(ent_cap), str(err_cap), str(deadline), src, damage, str(r.randint(0, 2 ** 31)),
          str(r.choice([0, 0, 200, 800]) if stall is None else stall), str(len(text)) if pylen else "",
          str(prolog), "1" if tnl else "0", str(len(entries))]
@@ -116,10 +133,10 @@ def caps(r, k):
     elif c < 0.7: e = r.randint(0, max(1, k))
     else: e = r.randint(0, 100)
     c = r.random()
-    if c < 0.12: q = 0
-    elif c < 0.2: q = 1
-    elif c < 0.5: q = 2
-    else: q = r.randint(2, 100)
+    if c < 0.25: q = 0
+    elif c < 0.45: q = 1
+    elif c < 0.6: q = 2
+    else: q = r.randint(0, 100)
     return e, q
 
 SMALL = [
@@ -143,13 +160,18 @@ def cases(seed, tier):
         text, _, _, _ = render(prolog, entries, tnl)
         for n in range(0, len(text) + 3):
             if quick:
-                # settings 5 and 6 are the excluded corner (each costs its deadline): a few offsets only
-                k = (n + di) % 5 if n % 40 else 5 + (n // 40) % 2
-                sel = [settings[k]]
+                sel = [settings[(n + di) % 8]]
             else:
-                sel = settings[:5] + ([settings[5 + n % 3]] if n % 7 == 0 else [])
+                sel = settings[:5] + [settings[5 + n % 3]]
             for (cons, ec, qc, src) in sel:
                 yield case(r, cons, ec, qc, src, "trunc:%d" % n, prolog, tnl, entries)
+    # ---- exhaustive truncation of the GZIP byte stream (the compressed stream of these small documents is
+    # ---- shorter than the text + 24; offsets beyond its end leave it intact), Parse on gzip and uniprot.Read
+    for (prolog, tnl, entries) in ([SMALL[3]] if quick else [SMALL[3], SMALL[0]]):
+        text, _, _, _ = render(prolog, entries, tnl)
+        for n in range(0, len(text) + 24):
+            yield case(r, "seq", 0, 0, "gz", "gztruncabs:%d" % n, prolog, tnl, entries)
+            yield case(r, "seq" if n % 2 else "conc", 100, 100, "read", "gztruncabs:%d" % n, prolog, tnl, entries)
     # ---- well-formed documents, 0..200 entries, every consumer / capacity / source
     for i in range(60 if quick else 1500):
         k = r.choice([0, 1, 2, 3]) if r.random() < 0.3 else min(200, loglen(r, 1, 200))
@@ -163,6 +185,10 @@ def cases(seed, tier):
         for (cons, ec, qc) in [("seq", 0, 0), ("conc", 0, 0), ("seq", 100, 100), ("seq", 7, 0)]:
             yield case(r, cons, ec, qc, "plain", "none", 1, True, entries)
         yield case(r, "seq", 100, 100, "read", "none", 1, True, entries)
+    # ---- two dumps of more than 100 entries opened with uniprot.Read before either is consumed
+    for i in range(3 if quick else 40):
+        entries = [entry(r) for _ in range(r.randint(101, 200))]
+        yield case(r, r.choice(["seq", "conc"]), 100, 100, "read2", "none", 1, True, entries)
     # ---- damaged larger documents
     for i in range(150 if quick else 4000):
         k = min(200, loglen(r, 1, 60 if quick else 200))
@@ -171,8 +197,6 @@ def cases(seed, tier):
         text, root_start, root_end, ends = render(prolog, entries, tnl)
         cons = r.choice(["seq", "conc"])
         ec, qc = caps(r, k)
-        if cons == "seq" and qc < 2 and r.random() < 0.9:
-            qc = r.randint(2, 100)      # the corner is visited, but rarely (it costs the deadline)
         src = r.choice(["plain", "plain", "gz", "read"])
         c = r.random()
         if c < 0.3:
@@ -180,8 +204,10 @@ def cases(seed, tier):
         elif c < 0.4:
             e = r.choice(ends)
             dmg = "trunc:%d" % (e + r.choice([-9, -8, -1, 0, 1, 2]))
-        elif c < 0.55:
+        elif c < 0.48:
             dmg = "set:%d:1" % r.randint(root_start, root_end - 1)
+        elif c < 0.55:
+            dmg = "hset:%d:%d" % (r.randint(root_start, root_end - 1), r.choice([128, 160, 192, 233, 254, 255]))
         elif c < 0.7:
             # '<' into leaf text: pick a position inside some sequence / accession / name text
             cand = [i for i in range(root_start, root_end) if text[i] in WORD and text[i - 1] in WORD + ">" ]
@@ -197,11 +223,13 @@ def cases(seed, tier):
             src = r.choice(["gz", "read"])
             dmg = "gzflip:%d" % r.randint(0, 999)
         yield case(r, cons, ec, qc, src, dmg, prolog, tnl, entries)
-    # ---- the excluded corner, on purpose (model predicts a block; short deadline)
-    for (ec, qc) in [(0, 0), (5, 0), (5, 1)]:
-        prolog, tnl, entries = SMALL[0]
-        yield case(r, "seq", ec, qc, "plain", "trunc:200", prolog, tnl, entries)
-    # ---- outside the property: schema-invalid attribute (non-sticky decode error), arbitrary overwrites
+    # ---- documented consumer, error channel of capacity 0 and 1, every kind of damage position
+    prolog, tnl, entries = SMALL[0]
+    for (ec, qc) in [(0, 0), (5, 0), (5, 1), (0, 1)]:
+        for n in (20, 39, 60, 200, 330, 340, 345, 440, 483, 500):
+            yield case(r, "seq", ec, qc, "plain", "trunc:%d" % n, prolog, tnl, entries)
+    # ---- a schema-invalid attribute value (non-sticky decode error; judged as damage at that entry), and
+    # ---- arbitrary overwrites (mostly unclassified: correspondence only)
     for i in range(10 if quick else 200):
         k = r.randint(1, 6)
         entries = [entry(r) for _ in range(k)]
@@ -215,11 +243,16 @@ def cases(seed, tier):
                    1, True, entries)
 
 
+RACE_ENV = {"GORACE": "halt_on_error=1", "VERIF_FLUSH_EACH": "1"}
+
+
 def extra_runs(seed, tier, case_lines):
+    docs = [c for c in case_lines if len(c) < 30000]
     if tier != "thorough":
+        # a small race-detector run in the quick tier: every 12th case, GOMAXPROCS 4
+        yield ("race-q", docs[::12][:120], dict(RACE_ENV, GOMAXPROCS="4"), True)
         return
-    docs = [c for c in case_lines if len(c) < 30000 and "\t250\t" not in c[:40]]
     for procs in ("1", "2", "16"):
         k = {"1": 0, "2": 1, "16": 2}[procs]
-        yield ("race-p" + procs, docs[k::3][:4000], {"GOMAXPROCS": procs}, True)
+        yield ("race-p" + procs, docs[k::3][:4000], dict(RACE_ENV, GOMAXPROCS=procs), True)
     yield ("p1", docs[::2][:6000], {"GOMAXPROCS": "1"}, False)
